@@ -1,6 +1,236 @@
 import Model.Util
 /-
-  Model/Obs.lean — (stub) executable model; see DESIGN.md.  Core Lean only.
+  Model/Obs.lean — executable model of observation handling (property C15):
+  `agilerl.utils.algo_utils.{obs_to_tensor, maybe_add_batch_dim, get_vect_dim,
+  preprocess_observation, apply_image_normalization}` and of
+  `MultiAgentRLAlgorithm.{assemble,disassemble}_homogeneous_outputs / stack_critic_observations`.
+
+  A tensor is a shape plus its flat row-major data.  `unsqueeze`, `squeeze` and `view(-1, …)` do
+  not touch row-major data, so the whole batch-dimension logic is shape algebra; one-hot encoding
+  and min-max scaling act on the data.  Core Lean only.
+-/
+namespace Obs
+
+structure Tensor where
+  shape : List Nat
+  data  : List Rat
+deriving Repr, DecidableEq
+
+inductive Err
+  | rank        -- `maybe_add_batch_dim`: ValueError (rank not in {r, r+1, r+2})
+  | view        -- `view(-1, *space_shape)` impossible
+  | range       -- `F.one_hot`: value outside `[0, n)`
+  | shape       -- operands that do not line up (broadcast / split)
+deriving Repr, DecidableEq
+
+/-- number of elements of a shape -/
+def numel : List Nat → Nat
+  | [] => 1
+  | d :: r => d * numel r
+
+/-- split a list in consecutive pieces of `k` elements (the last may be shorter) -/
+def chunkAux {α} (k : Nat) : Nat → List α → List (List α)
+  | 0, _ => []
+  | _ + 1, [] => []
+  | f + 1, x :: xs => ((x :: xs).take k) :: chunkAux k f ((x :: xs).drop k)
+
+def chunk {α} (k : Nat) (l : List α) : List (List α) := chunkAux k l.length l
+
+/-- the rows (along dimension 0) of a tensor whose rows have `k` elements -/
+def Tensor.rows (t : Tensor) (k : Nat) : List (List Rat) := chunk k t.data
+
+/-! ### `maybe_add_batch_dim` -/
+
+/-- exactly the rank comparison of `maybe_add_batch_dim(obs, space_shape)`:
+    same rank → `unsqueeze(0)`; rank + 2 → `view(-1, *space_shape)`; rank + 1 → unchanged;
+    anything else → `ValueError`.  Only ranks are compared, never the sizes. -/
+def maybeAddBatchDim (t : Tensor) (p : List Nat) : Except Err Tensor :=
+  if t.shape.length = p.length then
+    .ok { t with shape := 1 :: t.shape }
+  else if t.shape.length = p.length + 2 then
+    if numel p = 0 ∨ numel t.shape % numel p ≠ 0 then .error .view
+    else .ok { t with shape := (numel t.shape / numel p) :: p }
+  else if t.shape.length = p.length + 1 then .ok t
+  else .error .rank
+
+/-- `get_vect_dim` on a leaf space (after the MultiBinary repair all leaves take this branch) -/
+def getVectDim (obsShape spaceShape : List Nat) : Nat :=
+  if obsShape.length > spaceShape.length then obsShape.headD 0 else 1
+
+/-! ### one-hot -/
+
+/-- `tensor.long()` of a float: truncation towards zero -/
+def toLong (q : Rat) : Int := Int.tdiv q.num q.den
+
+def oneHotVec (n : Nat) (v : Nat) : List Rat :=
+  (List.range n).map (fun i => if i = v then 1 else 0)
+
+/-- `F.one_hot(v, num_classes = n)`; raises for a value outside `[0, n)` -/
+def oneHot (n : Nat) (v : Int) : Option (List Rat) :=
+  if 0 ≤ v ∧ v < (n : Int) then some (oneHotVec n v.toNat) else none
+
+def allOk {α} : List (Option α) → Option (List α)
+  | [] => some []
+  | none :: _ => none
+  | some a :: r => (allOk r).map (a :: ·)
+
+/-- one-hot of every element (appends a last dimension of size `n`) -/
+def oneHotAll (n : Nat) (d : List Rat) : Option (List Rat) :=
+  (allOk (d.map (fun q => oneHot n (toLong q)))).map List.flatten
+
+/-- one row of a MultiDiscrete observation: concatenation of the one-hots of its components;
+    `zip` semantics of `enumerate(torch.split(…))` against `nvec` is excluded by the length test -/
+def mdRow (nvec : List Nat) (row : List Rat) : Option (List Rat) :=
+  if row.length ≠ nvec.length then none
+  else (allOk (List.zipWith (fun n q => oneHot n (toLong q)) nvec row)).map List.flatten
+
+/-- offset of component `i` inside the concatenated one-hot row -/
+def mdOffset (nvec : List Nat) (i : Nat) : Nat := (nvec.take i).sum
+
+/-! ### min-max scaling -/
+
+def normalize (lo hi x : Rat) : Rat := (x - lo) / (hi - lo)
+
+def normRow (lo hi row : List Rat) : List Rat :=
+  List.zipWith (fun (b : Rat × Rat) x => normalize b.1 b.2 x) (List.zip lo hi) row
+
+def allSomeR : List (Option Rat) → Option (List Rat) := allOk
+
+/-- is `p` a suffix of `s` (the observation broadcasts against `low`/`high` without expansion) -/
+def endsWith (s p : List Nat) : Bool := s.drop (s.length - p.length) == p
+
+/-- `apply_image_normalization`: bypass when a bound is infinite, else `(x - low) / (high - low)`
+    broadcast over the leading dimensions.  (The code's third bypass, `low = 0 ∧ high = 1`, is the
+    same function: `normalize 0 1 x = x`.) -/
+def applyNorm (p : List Nat) (lo hi : List (Option Rat)) (t : Tensor) : Except Err Tensor :=
+  match allSomeR lo, allSomeR hi with
+  | some l, some h =>
+    if l.length ≠ numel p ∨ h.length ≠ numel p ∨ numel p = 0 ∨ !(endsWith t.shape p) then .error .shape
+    else .ok { t with data := ((chunk (numel p) t.data).map (normRow l h)).flatten }
+  | _, _ => .ok t
+
+/-! ### spaces -/
+
+inductive Leaf
+  | box (shape : List Nat) (low high : List (Option Rat))   -- flat bounds; `none` = ±∞
+  | discrete (n : Nat)
+  | multiDiscrete (nvec : List Nat)
+  | multiBinary (n : Nat)
+deriving Repr
+
+/-- `space.shape` -/
+def Leaf.obsShape : Leaf → List Nat
+  | .box p _ _ => p
+  | .discrete _ => []
+  | .multiDiscrete nv => [nv.length]
+  | .multiBinary n => [n]
+
+/-- the network's input shape for this space -/
+def Leaf.netShape : Leaf → List Nat
+  | .box p _ _ => p
+  | .discrete n => [n]
+  | .multiDiscrete nv => [nv.sum]
+  | .multiBinary n => [n]
+
+def liftOpt {α} (e : Err) : Option α → Except Err α
+  | some a => .ok a
+  | none => .error e
+
+/-- `squeeze()`: drop every dimension of size one -/
+def squeezeAll (s : List Nat) : List Nat := s.filter (· ≠ 1)
+
+def prepDiscrete (n : Nat) (t : Tensor) : Except Err Tensor := do
+  let d ← liftOpt .range (oneHotAll n t.data)
+  let s1 := t.shape ++ [n]
+  let s2 := if n > 1 then squeezeAll s1 else s1       -- "if n == 1 then squeeze removes obs dim"
+  maybeAddBatchDim { shape := s2, data := d } [n]
+
+/-- MultiDiscrete.  `first` is the shape handed to the first `maybe_add_batch_dim`:
+    `[nvec.length]` in the repaired code, `[nvec.sum]` in the legacy code. -/
+def prepMultiDiscreteWith (first : List Nat) (nvec : List Nat) (t : Tensor) : Except Err Tensor := do
+  let t1 ← maybeAddBatchDim t first
+  match t1.shape with
+  | [b, c] =>
+    if c ≠ nvec.length then .error .shape else
+    let rows ← liftOpt .range (allOk ((chunk nvec.length t1.data).map (mdRow nvec)))
+    maybeAddBatchDim { shape := [b, 1, nvec.sum], data := rows.flatten } [nvec.sum]
+  | _ => .error .shape
+
+def prepMultiDiscrete (nvec : List Nat) (t : Tensor) : Except Err Tensor :=
+  prepMultiDiscreteWith [nvec.length] nvec t
+
+def prepMultiDiscreteLegacy (nvec : List Nat) (t : Tensor) : Except Err Tensor :=
+  prepMultiDiscreteWith [nvec.sum] nvec t
+
+/-- `preprocess_observation` on a leaf space (the tensor is already `obs_to_tensor`'d: float) -/
+def preprocess (norm : Bool) : Leaf → Tensor → Except Err Tensor
+  | .box p lo hi, t => do
+    let t' ← if p.length = 3 ∧ norm = true then applyNorm p lo hi t else .ok t
+    maybeAddBatchDim t' p
+  | .discrete n, t => prepDiscrete n t
+  | .multiDiscrete nv, t => prepMultiDiscrete nv t
+  | .multiBinary n, t => maybeAddBatchDim t [n]
+
+/-- Dict / Tuple spaces (one level): member by member, first failure wins -/
+def preprocessAll (norm : Bool) : List (Leaf × Tensor) → Except Err (List Tensor)
+  | [] => .ok []
+  | (sp, t) :: r => do
+    let a ← preprocess norm sp t
+    let b ← preprocessAll norm r
+    .ok (a :: b)
+
+/-- `get_vect_dim` on Dict / Tuple: the first member decides -/
+def getVectDimAll : List (Leaf × List Nat) → Nat
+  | [] => 1
+  | (sp, s) :: _ => getVectDim s sp.obsShape
+
+/-! ### shared policies and centralised critics -/
+
+/-- `assemble_homogeneous_outputs`: `np.stack` over the agents of a group (group order), then
+    `reshape(n_agents * vect_dim, -1)` — flat data is the concatenation -/
+def assembleHomogeneous {α} (xs : List (List α)) : List α := xs.flatten
+
+/-- `disassemble_homogeneous_outputs`: `reshape(n_agents, vect_dim, -1)[i]` -/
+def disassembleHomogeneous {α} (nAgents : Nat) (d : List α) : List (List α) :=
+  chunk (d.length / nAgents) d
+
+/-- apply a row-wise function to a flat batch whose rows have `k` elements -/
+def mapRows {α β} (k : Nat) (g : List α → List β) (d : List α) : List β :=
+  ((chunk k d).map g).flatten
+
+/-- `torch.cat(obs, dim=1)` of per-agent `[B, d_a]` tensors given as rows -/
+def catRows (B : Nat) (agents : List (List (List Rat))) : List (List Rat) :=
+  (List.range B).map (fun b => (agents.map (fun rows => rows.getD b [])).flatten)
+
+/-- vector observations: every agent `[B, d_a]` → `[B, Σ d_a]` -/
+def stackCritic (B : Nat) (ts : List (Tensor × Nat)) : Tensor :=
+  let rows := catRows B (ts.map (fun (t, d) => t.rows d))
+  { shape := [B, (ts.map (·.2)).sum], data := rows.flatten }
+
+/-- one row of `torch.stack(obs, dim=2)` of image rows `[C, H, W]`: `[C, A, H, W]` -/
+def stackImgRow (C hw : Nat) (agentRows : List (List Rat)) : List Rat :=
+  ((List.range C).map (fun c => (agentRows.map (fun r => (chunk hw r).getD c [])).flatten)).flatten
+
+/-- image observations: every agent `[B, C, H, W]` → `[B, C, A, H, W]` -/
+def stackCriticImg (B C H W : Nat) (ts : List Tensor) : Tensor :=
+  let rows := (List.range B).map (fun b =>
+    stackImgRow C (H * W) (ts.map (fun t => (t.rows (C * (H * W))).getD b [])))
+  { shape := [B, C, ts.length, H, W], data := rows.flatten }
+
+end Obs
+
+/-! ### line protocol
+
+  sections are separated by `|`:
+  * `prep <norm 0|1> | <space> | <shape…> | <data…>`          → `ok <shape…> | <data…>` / `reject`
+      space := `box p… ; lo… ; hi…` written as three sections `box p… | lo… | hi…`
+               (bounds: rationals or `inf` / `-inf`), `disc n`, `mdisc n…`, `mdisclegacy n…`, `mbin n`
+  * `batchdim | <shape…> | <space shape…>`                   → `ok <shape…>` / `reject`
+  * `vect | <obs shape…> | <space shape…>`                   → `<n>`
+  * `asm | <agent 0 data…> | <agent 1 data…> …`              → `<data…>`
+  * `dis <nAgents> | <data…>`                                → `<a0…> | <a1…> …`
+  * `critic <B> | <d_0> <data…> | <d_1> <data…> …`           → `ok <shape…> | <data…>`
+  * `criticimg <B> <C> <H> <W> | <data…> | …`                → `ok <shape…> | <data…>`
 -/
 namespace Obs
 open Util
@@ -8,7 +238,93 @@ open Util
 structure IOState where
   dummy : Nat := 0
 
-def step (s : IOState) : List String → IOState × String
+/-- split on the separator word `|`, keeping empty sections -/
+def splitBar : List String → List (List String)
+  | [] => [[]]
+  | w :: r =>
+    match splitBar r with
+    | [] => [[]]      -- unreachable
+    | s :: ss => if w = "|" then [] :: s :: ss else (w :: s) :: ss
+
+def parseBound? (s : String) : Option (Option Rat) :=
+  if s = "inf" ∨ s = "-inf" then some none else (parseRat? s).map some
+
+def showTensor (t : Tensor) : String := "ok " ++ showNats t.shape ++ " | " ++ showRats t.data
+
+def showRes : Except Err Tensor → String
+  | .ok t => showTensor t
+  | .error _ => "reject"
+
+def parseLeaf? : List (List String) → Option (Leaf × List (List String))
+  | ("box" :: p) :: lo :: hi :: rest =>
+    match parseNats? p, allSome (lo.map parseBound?), allSome (hi.map parseBound?) with
+    | some p, some lo, some hi => some (.box p lo hi, rest)
+    | _, _, _ => none
+  | ["disc", n] :: rest => (parseNat? n).map (fun n => (.discrete n, rest))
+  | ("mdisc" :: nv) :: rest => (parseNats? nv).map (fun nv => (.multiDiscrete nv, rest))
+  | ["mbin", n] :: rest => (parseNat? n).map (fun n => (.multiBinary n, rest))
+  | _ => none
+
+def parseTensor? (shape data : List String) : Option Tensor :=
+  match parseNats? shape, parseRats? data with
+  | some s, some d => if d.length = numel s then some { shape := s, data := d } else none
+  | _, _ => none
+
+def step (s : IOState) (ws : List String) : IOState × String :=
+  match splitBar ws with
+  | ["prep", norm] :: rest =>
+    if norm ≠ "0" ∧ norm ≠ "1" then (s, "bad-op") else
+    match rest with
+    | ("mdisclegacy" :: nv) :: [shape, data] =>
+      match parseNats? nv, parseTensor? shape data with
+      | some nv, some t => (s, showRes (prepMultiDiscreteLegacy nv t))
+      | _, _ => (s, "bad-op")
+    | _ =>
+      match parseLeaf? rest with
+      | some (sp, [shape, data]) =>
+        match parseTensor? shape data with
+        | some t => (s, showRes (preprocess (norm = "1") sp t))
+        | none => (s, "bad-op")
+      | _ => (s, "bad-op")
+  | [["batchdim"], shape, p] =>
+    match parseNats? shape, parseNats? p with
+    | some sh, some p =>
+      (s, match maybeAddBatchDim { shape := sh, data := [] } p with
+          | .ok t => "ok " ++ showNats t.shape
+          | .error _ => "reject")
+    | _, _ => (s, "bad-op")
+  | [["vect"], shape, p] =>
+    match parseNats? shape, parseNats? p with
+    | some sh, some p => (s, toString (getVectDim sh p))
+    | _, _ => (s, "bad-op")
+  | ["asm"] :: agents =>
+    match allSome (agents.map parseRats?) with
+    | some xs => if xs = [] then (s, "bad-op") else (s, showRats (assembleHomogeneous xs))
+    | none => (s, "bad-op")
+  | [["dis", n], data] =>
+    match parseNat? n, parseRats? data with
+    | some n, some d =>
+      if n = 0 ∨ d.length % n ≠ 0 ∨ d = [] then (s, "reject")
+      else (s, " | ".intercalate ((disassembleHomogeneous n d).map showRats))
+    | _, _ => (s, "bad-op")
+  | ["critic", b] :: agents =>
+    match parseNat? b, allSome (agents.map (fun a =>
+        match a with
+        | d :: data =>
+          match parseNat? d, parseRats? data with
+          | some d, some xs => some (({ shape := [xs.length / d, d], data := xs } : Tensor), d)
+          | _, _ => none
+        | [] => none)) with
+    | some b, some ts =>
+      if ts = [] ∨ ts.any (fun (t, d) => d = 0 ∨ t.data.length ≠ b * d) then (s, "reject")
+      else (s, showTensor (stackCritic b ts))
+    | _, _ => (s, "bad-op")
+  | ["criticimg", b, c, h, w] :: agents =>
+    match parseNat? b, parseNat? c, parseNat? h, parseNat? w, allSome (agents.map parseRats?) with
+    | some b, some c, some h, some w, some xs =>
+      if xs = [] ∨ c * (h * w) = 0 ∨ xs.any (fun x => x.length ≠ b * (c * (h * w))) then (s, "reject")
+      else (s, showTensor (stackCriticImg b c h w (xs.map (fun x => { shape := [b, c, h, w], data := x }))))
+    | _, _, _, _, _ => (s, "bad-op")
   | _ => (s, "bad-op")
 
 end Obs
